@@ -290,7 +290,7 @@ pub fn checks() -> Vec<Box<dyn Check>> {
 pub fn run(ctx: &Ctx) -> i32 {
     let parts = vec![
         crate::corpus_part(ctx, &checks()),
-        run_pbt(ctx, &HoverCheck, ctx.n(8_000, 150_000)),
+        run_pbt(ctx, &HoverCheck, ctx.n(16_000, 250_000)),
         run_pbt(ctx, &SignatureCheck, ctx.n(8_000, 150_000)),
     ];
     finish(
